@@ -193,6 +193,9 @@ namespace xsv
         auto j_xor = XSV_J { using T = XSV_T; exp = from_bits<T>(bits(a[0]) ^ bits(a[1])); cls |= CL_BOUNDARY; return fin_bits<T>(got, exp, cls); };
         auto j_andnot = XSV_J { using T = XSV_T; exp = from_bits<T>(bits(a[0]) & ~bits(a[1])); cls |= CL_BOUNDARY; return fin_bits<T>(got, exp, cls); };
         auto j_not = XSV_J { using T = XSV_T; exp = from_bits<T>(~bits(a[0])); cls |= CL_BOUNDARY; return fin_bits<T>(got, exp, cls); };
+        auto j_posf = XSV_J { using T = XSV_T; exp = a[0]; cls |= fp_cls(a[0]); return fin_bits<T>(got, exp, cls); };
+        for (const char* n : { "pos", "op_pos" })
+            def_fp(n, "C02", 1, j_posf);
         for (const char* n : { "neg", "op_neg" })
             def_fp(n, "C02", 1, j_neg);
         for (const char* n : { "abs", "fabs" })
@@ -222,6 +225,8 @@ namespace xsv
         auto j_max = XSV_J { using T = XSV_T; if (std::isnan(a[0]) || std::isnan(a[1])) return J_SKIP; exp = a[1] > a[0] ? a[1] : a[0]; cls |= fp_cls(a[0]) | fp_cls(a[1]) | (a[0] == a[1] ? CL_TIE : 0); return (got == exp && !std::isnan(got)) ? J_OK : J_FAIL; };
         def_fp("min", "C02", 2, j_min);
         def_fp("max", "C02", 2, j_max);
+        def_fp("fmin", "C02", 2, j_min);
+        def_fp("fmax", "C02", 2, j_max);
         // predicates
         auto pred = [](bool e, uint8_t got, uint8_t& exp, unsigned& cls) -> int { exp = e ? 1 : 0; cls |= e ? CL_TRUE : CL_FALSE; return got == exp ? J_OK : J_FAIL; };
         auto j_isnan = [pred](auto* a, int64_t, uint8_t got, uint8_t& exp, unsigned& cls) -> int { cls |= fp_cls(a[0]); return pred(std::isnan(a[0]), got, exp, cls); };
